@@ -7,6 +7,7 @@ import Driver.Util
    Shell oracle: a command starting with `$` prints the variable whose decimal id follows
    (read from the environment handed to it); any other command prints `<cmd>@<dir>`.
 `vars.env <nos> (name val)* <nglobal> (name val)* <ndotenv> (name val)* <ntask> (name val)* <prec> <nq> name*` → looked-up values (`-` none)
+`vars.loop …` (see `doLoop`)
 `vars.product <nrows> { name <nitems> item* }*` → `<n> { k=v,… }*`
 -/
 namespace Driver.Vars
@@ -99,9 +100,21 @@ def doProduct : P String := do
   pure (" ".intercalate (toString combos.length ::
     combos.map (fun c => ",".intercalate (c.map (fun kv => s!"{kv.1}={showStr kv.2}")))))
 
+/-- `vars.loop <lv> <nvars> {name val}* <nitems> item* <nrefs> ref*` → per item the values
+the iteration sees for the referenced names (`none` = undefined) -/
+def doLoop : P String := do
+  let lv ← nat
+  let nv ← nat; let vs ← many nv (do let k ← nat; let v ← str; pure (k, v))
+  let ni ← nat; let items ← many ni str
+  let nr ← nat; let refs ← many nr nat
+  let rows := loopRender lv vs items refs
+  pure (" ".intercalate (toString rows.length ::
+    rows.map (fun r => ",".intercalate (r.map (fun o => match o with | some v => showStr v | none => "none")))))
+
 def handle (op : String) (args : List String) : Option String :=
   let run (p : P String) := match p.run args with | some (r, []) => some r | _ => none
   match op with
+  | "vars.loop" => run doLoop
   | "vars.resolve" => run doResolve
   | "vars.env" => run doEnv
   | "vars.product" => run doProduct
